@@ -7,15 +7,19 @@ PER_FAMILY = (600, 12000)
 
 PROOF = S.pool_proof('C06', ['C06_forced_flag_always_set', 'C06_forced_shutdown_is_prompt', 'C06_nothing_accepted_after_the_call', 'C06_structure', 'C06_own_kills_never_orphan_the_management_lock', 'C06_worker_only_probes_the_management_lock', 'C06_manager_survives_a_forced_shutdown', 'C06_failing_the_table_never_kills_the_manager', 'C06_forced_shutdown_ends_the_feeder_thread', 'C06_forced_loop_survives_the_feeder',
                      'C06_posix_kill_reaches_the_whole_tree', 'C06_psutil_kill_reaches_the_whole_tree', 'C06_quiet_tree_is_killed_entirely', 'C06_nopsutil_wrapper',
-                     'C06_fork_during_the_sweep_escapes_refuted', 'C06_kill_tree_structure'],
+                     'C06_fork_during_the_sweep_escapes_refuted', 'C06_kill_tree_structure',
+                     'C06_join_is_under_the_global_lock', 'C06_forced_effect_is_prompt_beside_another_shutdown', 'C06_forced_call_waits_for_the_other_executors_task',
+                     'C06_forced_call_promptness_refuted', 'C06_without_the_lock_the_forced_call_is_prompt'],
                     'the killing of descendants: Model/KillTree.v over the regenerated statement lists of loky/backend/utils.py (every tree, both paths), tied by running the real functions on a scripted process table and by real process trees; a descendant forked during the sweep escapes (H21, known); the management lock against the kills loky performs itself is Model/KillLock.v (H10, fixed); kills from outside (H5) are outside the theorem', extra_gen=['Worker', 'KillTree'])
 
 
 def run(ctx):
     from checks import realkill, killtree
     extra = realkill.forced(ctx)
+    extra.update(realkill.forced_idle(ctx))
     extra.update(realkill.churn(ctx))
     extra.update(realkill.forkstorm(ctx))
+    extra.update(realkill.globaljoin(ctx))
     extra.update(killtree.check(ctx))
     return S.sim_check(ctx, FAMILIES, FAMILIES, PER_FAMILY, S.SIM_ASSUME, proof=PROOF, extra_cov=extra)
 
